@@ -319,6 +319,33 @@ pub fn gen_history(rng: &mut Rng, solver: DynKind, fault_mode: usize) -> Vec<Ste
     let mut steps: Vec<Step> = vec![];
     let mut removed: Vec<L> = vec![];
     let mut just_updated = false;
+    let mut universe = universe;
+    let mut max_live = max_live;
+    // one third of the histories start from a structured framework (motif compositions, cycles,
+    // funnels: frameworks on which the semantics genuinely differ) built by valid updates, followed
+    // by a query on every argument; the random phase then edits it
+    if rng.chance(1, 3) {
+        let fw = crate::cases::gen_framework(rng, &crate::cases::GenParams { max_n: 7, allow_removals: true, single_component_pct: 30 });
+        for u in &fw.ops {
+            if store.apply(u) == Applied::Changed {
+                if let Upd::DelArg(l) = u {
+                    removed.push(*l);
+                }
+                steps.push(Step::U(*u));
+            }
+        }
+        let top = store.live.keys().copied().max().map(|l| l as usize + 1).unwrap_or(0);
+        universe = universe.max(top).max(2);
+        max_live = max_live.max(store.live.len()).min(universe);
+        if !kinds.is_empty() {
+            for l in store.live.keys().copied().collect::<Vec<L>>() {
+                if rng.chance(2, 3) {
+                    steps.push(Step::Q { kind: *rng.pick(&kinds), arg: l, cert: rng.bool() });
+                }
+            }
+        }
+    }
+    let n_steps = n_steps + steps.len();
     while steps.len() < n_steps {
         let live: Vec<L> = store.live.keys().copied().collect();
         // fault injection: biased to land right after an update that has not been flushed yet
